@@ -306,7 +306,7 @@ func init() {
 			c.guard("C16.2", func() { ruleProxyRightPeer(c, "C16.2") })
 			c.guard("C16.3", func() { ruleReceivedEnvelopeStores(c, "C16.3") })
 			c.guard("C16.4", func() { ruleReturnRoute(c, "C16.4", nil) })
-			c.guard("C16.5", func() { ruleProxyOrder(c, "C16.5") })
+			c.guard("C16.5", func() { ruleProxyOrder(c, "C16.5"); ruleFreshPeerQueue(c, "C16.5") })
 			c.guard("C16.6", func() { ruleProxyNoDiscard(c, "C16.6") })
 		},
 	})
@@ -321,7 +321,7 @@ func init() {
 		run: func(c *Ctx, thorough bool) {
 			c.guard("C17.1", func() { ruleProxySourceGate(c, "C17.1") })
 			c.guard("C17.2", func() { ruleForwardingLoopNeverWaits(c, "C17.2") })
-			c.guard("C17.3", func() { ruleRemovalIdentityChecked(c, "C17.3") })
+			c.guard("C17.3", func() { ruleRemovalIdentityChecked(c, "C17.3"); ruleFreshPeerQueue(c, "C17.3") })
 			c.guard("C17.4", func() { rulePeerLoopsCanExit(c, "C17.4") })
 			c.guard("C17.5", func() { ruleFailureReported(c, "C17.5") })
 			c.guard("C17.6", func() { ruleContextEndsLoop(c, "C17.6") })
@@ -356,7 +356,7 @@ func init() {
 		assumptions: baseAssumptions,
 		run: func(c *Ctx, thorough bool) {
 			c.guard("C19.1", func() { ruleTransportCtxDiscipline(c, "C19.1") })
-			c.guard("C19.2", func() { ruleTransportRejection(c, "C19.2") })
+			c.guard("C19.2", func() { ruleTransportRejection(c, "C19.2"); ruleWebsocketRejectsOnlyNonEnvelopes(c, "C19.2") })
 			c.guard("C19.3", func() { ruleTransportPassThrough(c, "C19.3") })
 			c.guard("C19.4", func() { ruleHttpIdleCleanup(c, "C19.4") })
 			c.guard("C19.5", func() {
@@ -372,7 +372,7 @@ func init() {
 		ruleText:    "obligation = one pairing, dominance, provenance or recurrence check; non-trivial = needed a path search, dominance, provenance",
 		assumptions: baseAssumptions,
 		run: func(c *Ctx, thorough bool) {
-			c.guard("C20.1", func() { ruleBeginEndPairing(c, "C20.1") })
+			c.guard("C20.1", func() { ruleBeginEndPairing(c, "C20.1"); ruleErrorPathEndSeesTheError(c, "C20.1") })
 			c.guard("C20.2", func() { ruleBeginFirstSameTag(c, "C20.2") })
 			c.guard("C20.3", func() { ruleEndErrorIsOutcome(c, "C20.3") })
 			c.guard("C20.4", func() { ruleInterceptorExactlyOnce(c, "C20.4") })
